@@ -92,7 +92,9 @@ def generate(rng, tier):
     for i in range(n):
         im, b = bs[i % len(bs)]
         r = rng.random()
-        if r < 0.45:
+        if r < 0.12:
+            mb, desc = elfimg.corrupt_hash_headers(b, im, rng)
+        elif r < 0.45:
             mb, desc = elfimg.corrupt_table_words(b, im, rng, types=(5, 0x6ffffff6, 0x6ffffffe, 0x6ffffffd, 0x6fffffff, 4, 9, 2, 11, 6, 14))
         elif r < 0.6:
             mb, desc = elfimg.corrupt_table_words(b, im, rng)
